@@ -7,3 +7,5 @@ import LapyVerif.Audit.C09
 import LapyVerif.Audit.C05
 import LapyVerif.Audit.C12
 import LapyVerif.Audit.C07
+import LapyVerif.Audit.C20
+import LapyVerif.Audit.C10
